@@ -8,7 +8,7 @@ ID=$1; N=$2; WT=/tmp/wt/$ID; OUT=/tmp/wtout/$ID; DEMO=$OUT/m${N}_demo
 export GOFLAGS=-mod=mod GOPROXY=off GOSUMDB=off GOTOOLCHAIN=local
 cd $WT && git checkout -q -- . && git clean -fdq
 rundemo() {
-  if [ -f $DEMO/run.sh ]; then (timeout 600 sh $DEMO/run.sh $WT >/tmp/demo.$ID.$N.log 2>&1; rc=$?; if grep -q "^FAIL\|--- FAIL\|DEMO FAIL" /tmp/demo.$ID.$N.log; then rc=1; fi; exit $rc); return $?; fi
+  if [ -f $DEMO/run.sh ]; then (timeout 600 bash $DEMO/run.sh $WT >/tmp/demo.$ID.$N.log 2>&1; rc=$?; if grep -q "^FAIL\|--- FAIL\|DEMO FAIL" /tmp/demo.$ID.$N.log; then rc=1; fi; exit $rc); return $?; fi
   if [ -f $DEMO/go.mod ]; then (cd $DEMO && timeout 600 go test -vet=off -count=1 ./... >/tmp/demo.$ID.$N.log 2>&1); return $?; fi
   # copy-in style: cp lines in README
   local rc=0; local files=""
